@@ -346,7 +346,7 @@ func TestC06Dispatch(t *testing.T) {
 // TestC06UnknownObjectType: an unknown object type yields an error, never a value.
 func TestC06UnknownObjectType(t *testing.T) {
 	const name = "TestC06UnknownObjectType"
-	rec := evid.New("C06", name, "Get/Export response, Register/Import request whose object type code is not one of the 9 registered ones (named-but-unsupported, arbitrary), followed by an arbitrary structure, in all three encodings; "+
+	rec := evid.New("C06", name, "Get/Export response, Register/Import request whose object type code is not one of the 9 registered ones (named-but-unsupported, arbitrary), followed by an arbitrary structure or by a well-formed object of one of the 9 registered types under its own tag, in all three encodings; "+
 		"non-trivial = every case (distinct by input)").Attach(t)
 	rapid.Check(t, func(rt *rapid.T) {
 		enc := rapid.SampledFrom(encodings).Draw(rt, "encoding")
@@ -363,7 +363,19 @@ func TestC06UnknownObjectType(t *testing.T) {
 		to.Alphabet = "ascii"
 		obj := gen.Tree(rt, to)
 		obj.Type, obj.Big, obj.B, obj.I = ttlvref.Structure, nil, nil, 0
-		obj.Tag = rapid.SampledFrom([]int{0x42008F, 0x420064, 0x420085, 0x420013, 0x42006D}).Draw(rt, "objtag")
+		obj.Tag = rapid.SampledFrom([]int{0x42008F, 0x420064, 0x420085, 0x420013, 0x42006D, 0x42005F, 0x420090, 0x420089, 0x420079}).Draw(rt, "objtag")
+		wellFormedBody := rapid.Bool().Draw(rt, "wellformedbody")
+		if wellFormedBody {
+			// the body is a well-formed object of one of the registered types (under its own tag): what a peer sends
+			// when it hands out, say, an Opaque Object under an object type code this build does not know
+			mo := gen.MsgOpts{TextSafe: true, Alphabet: "ascii", MaxItems: 1, ForceVersion: &kmip.V1_4}
+			o := gen.NewG(rt, mo).Object()
+			ns, err := (&refwalk.Walker{}).Emit(pins.Tags[reflect.TypeOf(o).Elem().Name()], reflect.ValueOf(o))
+			if err != nil || len(ns) != 1 {
+				rt.Fatalf("harness: refwalk: %v", err)
+			}
+			obj = ns[0]
+		}
 		kind := rapid.IntRange(0, 3).Draw(rt, "kind")
 		var code uint32
 		var response bool
@@ -390,7 +402,7 @@ func TestC06UnknownObjectType(t *testing.T) {
 		}
 		tree := itemTree(code, response, nil, p)
 		input := refEncode(tree, enc)
-		rec.Case(true, input, "enc="+enc, fmt.Sprintf("kind=%d", kind))
+		rec.Case(true, input, "enc="+enc, fmt.Sprintf("kind=%d", kind), fmt.Sprintf("wellformedbody=%v", wellFormedBody))
 		c := c06Case{Op: code, Response: response, Encoding: enc, ItemHex: fmt.Sprintf("%x", ttlvref.Write(tree)), ItemText: tree.String()}
 		if rec.WantSample() {
 			rec.Sample(c)
